@@ -166,6 +166,67 @@ def sendInput (cfg : Cfg) (dev : σ → Bytes → σ × Bytes) (input : Bytes) (
       | none => none
       | some (buf, w2) => some ((buf, processOutput cfg buf stripPrompt), (w2, s2.2))
 
+/-! ### the timed read loop (`_read_until_prompt_or_time`, sync_channel.py:200-268 and its async twin)
+
+  One iteration = one `read()` that either returns a (cleaned) piece or raises `ScrapliTimeout`, which the
+  loop suppresses (nothing is appended, the buffer is searched again), then the clock test
+  `time.time() - start > read_duration`, then the three stop tests on the search window.  The environment
+  supplies, besides the pieces, a *pause pattern* (which iterations time out) and a *clock*
+  (`some n` = the duration is found exceeded in the iteration after `n` more; `none` = never). -/
+
+/-- the two expected-output tests of one iteration: a literal expected output in the search window, or the
+    compiled `_join_and_compile(outputs)` pattern (`outPat`) finds something there -/
+def outsSeen (cfg : Cfg) (outs : List Bytes) (outPat : Pat) (buf : Bytes) : Bool :=
+  let sb := processReadBuf cfg.depth buf
+  outs.any (fun o => isInfixB o sb) || outPat.search sb
+
+/-- the stop tests of one iteration: the expected outputs, then the class prompt pattern -/
+def timedStop (cfg : Cfg) (outs : List Bytes) (outPat : Pat) (buf : Bytes) : Bool :=
+  outsSeen cfg outs outPat buf || promptSeen cfg.prompt cfg.depth buf
+
+/-- `while True:` over the events to come; returns the buffer and the number of PIECES consumed
+    (pauses consume nothing); `none` = events used up (the loop would go on waiting) -/
+def timedLoop (stop : Bytes → Bool) : Bytes → List (Option Bytes) → Option Nat → Option (Bytes × Nat)
+  | _, [], _ => none
+  | acc, e :: es, clock =>
+    let acc' := match e with | some c => acc ++ c | none => acc
+    let n := match e with | some _ => 1 | none => 0
+    if clock == some 0 then some (acc', n)
+    else if stop acc' then some (acc', n)
+    else (timedLoop stop acc' es (clock.map (· - 1))).map (fun r => (r.1, r.2 + n))
+
+/-- the events of a call: the pieces in order, the iterations marked `true` in the pause pattern time out
+    instead of reading.  Pauses after the last piece are dropped (the loop would go on waiting). -/
+def weave : List Bytes → List Bool → List (Option Bytes)
+  | ps, [] => ps.map some
+  | [], _ :: _ => []
+  | p :: ps, true :: bs => none :: weave (p :: ps) bs
+  | p :: ps, false :: bs => some p :: weave ps bs
+
+/-- the timed loop on the wire (a pause leaves the wire, also what is held back, untouched) -/
+def Wire.readUntilTimed (stop : Bytes → Bool) (pauses : List Bool) (clock : Option Nat) (w : Wire) :
+    Option (Bytes × Wire) :=
+  let ps := piecesOf w.avail w.cuts
+  match timedLoop stop [] (weave (cleanPieces w.held ps).1 pauses) clock with
+  | none => none
+  | some (buf, k) =>
+    some (buf, { w with avail := (ps.drop k).flatten, cuts := w.cuts.drop k,
+                        held := (cleanPieces w.held (ps.take k)).2 })
+
+/-- `send_input_and_read` (sync_channel.py:527-583): write, echo read, return, timed read, process -/
+def sendInputAndRead (cfg : Cfg) (dev : σ → Bytes → σ × Bytes) (input : Bytes) (stripPrompt : Bool)
+    (outs : List Bytes) (outPat : Pat) (pauses : List Bool) (clock : Option Nat)
+    (s : Wire × σ) : Option ((Bytes × Bytes) × (Wire × σ)) :=
+  let s1 := Wire.write dev s input
+  match (if input.isEmpty then some s1.1
+         else (Wire.readUntil (inputSeen cfg.rough input) s1.1).map (·.2)) with
+  | none => none
+  | some w1 =>
+    let s2 := Wire.write dev (w1, s1.2) cfg.ret
+    match Wire.readUntilTimed (timedStop cfg outs outPat) pauses clock s2.1 with
+    | none => none
+    | some (buf, w2) => some ((buf, processOutput cfg buf stripPrompt), (w2, s2.2))
+
 /-- `_interaction_complete` (base_channel.py): the read of one event ended on one of the
     interaction complete patterns rather than on the response expected for that event -/
 def interactionComplete (cfg : Cfg) (resp : Bytes) (complete : List Bytes) (b : Bytes) : Bool :=
